@@ -52,7 +52,10 @@ class Module:
         self.digest = hashlib.sha256(raw).hexdigest()
         try:
             self.source = raw.decode("utf-8")
-            self.tree = ast.parse(self.source, filename=rel)
+            import warnings
+            with warnings.catch_warnings():
+                warnings.simplefilter("ignore")
+                self.tree = ast.parse(self.source, filename=rel)
         except SyntaxError as e:
             raise AnalysisError(f"cannot parse {rel}: {e}")
         self.parents: Dict[ast.AST, ast.AST] = {}
